@@ -21,7 +21,7 @@ ID = "C20"
 THEOREMS = [
     "C20_chunks_concat", "C20_chunks_sizes", "C20_batches_are_chunks", "C20_batch_sizes",
     "C20_epoch_is_permutation", "C20_every_epoch_is_permutation",
-    "C20_fields_aligned", "C20_fields_aligned_given_perm", "C20_fields_aligned_rowwise",
+    "C20_fields_aligned", "C20_fields_aligned_rowwise",
     "C20_truncation", "C20_no_truncation",
     "C20_replay_epoch_is_permutation", "C20_merge_padding", "C20_padding_is_zero", "C20_merge_padding_rowwise",
     "C20_seed_determines_stream", "C20_fastforward_eq_consume", "C20_fastforward_skips_stream",
@@ -556,7 +556,7 @@ def _report(run, cs, meta, clause, extra=None, model_disagrees=True):
 MAX_REPORT = 6
 
 
-def _size_shards(cs, target=200_000):
+def _size_shards(cs, target=120_000):
     """choose the shard length so that one cases file carries about `target` bytes of literals"""
     total = sum(len(t) for t in cs.terms) or 1
     cs.shard = max(3, min(80, int(len(cs) * target / total)))
